@@ -163,3 +163,40 @@ pub proof fn lemma_subtree_no_children(t: Tree, P: Seq<char>, q: Seq<char>)
 {
     assert forall|n: Seq<char>| is_child(subtree(t, P), q, n) == is_child(t, P + q, n) by { lemma_subtree_children(t, P, q, n); }
 }
+pub proof fn lemma_under_child(p: Seq<char>, n: Seq<char>)
+    ensures under(p, child_path(p, n))
+{
+    assert(child_path(p, n).subrange(0, p.len() as int + 1) =~= p + seq!['/']);
+}
+pub proof fn lemma_under_trans(a: Seq<char>, b: Seq<char>, c: Seq<char>)
+    requires under(a, b), under(b, c)
+    ensures under(a, c)
+{
+    if b != a && c != b {
+        let pa = a + seq!['/'];
+        let pb = b + seq!['/'];
+        assert(c.subrange(0, pa.len() as int) =~= b.subrange(0, pa.len() as int)) by {
+            assert(c.subrange(0, pb.len() as int) =~= pb);
+            assert(b.subrange(0, pa.len() as int) =~= pa);
+            assert forall|i: int| 0 <= i < pa.len() implies c[i] == b[i] by { assert(c.subrange(0, pb.len() as int)[i] == pb[i]); }
+        }
+        assert(c.subrange(0, pa.len() as int) =~= pa);
+    }
+}
+pub proof fn lemma_changed_under_trans(t1: Tree, t2: Tree, t3: Tree, P: Seq<char>)
+    requires changed_only_under(t1, t2, P), changed_only_under(t2, t3, P)
+    ensures changed_only_under(t1, t3, P)
+{}
+pub proof fn lemma_changed_under_weaken(t1: Tree, t2: Tree, P: Seq<char>, sub: Seq<char>)
+    requires changed_only_under(t1, t2, sub), under(P, sub)
+    ensures changed_only_under(t1, t2, P)
+{
+    assert forall|q: Seq<char>| !under(P, q) implies !under(sub, q) by {
+        if under(sub, q) { lemma_under_trans(P, sub, q); }
+    }
+}
+/// a single-entry change at d is a change under any P with under(P, d)
+pub proof fn lemma_changed_at_under(t1: Tree, t2: Tree, P: Seq<char>, d: Seq<char>)
+    requires under(P, d), forall|q: Seq<char>| q != d ==> (#[trigger] t2.contains_key(q) == t1.contains_key(q)) && (t1.contains_key(q) ==> t2[q] == t1[q])
+    ensures changed_only_under(t1, t2, P)
+{}
